@@ -902,14 +902,21 @@ func (m *metadataAPI) ReportGroupCoordinator(ctx context.Context, req *proto.Rep
 	verifGate("metadata.report_group_coordinator.checked")
 
 	m.consumerGroupsMu.Lock()
+	// Check the group epoch again now that the failover status is looked up:
+	// another report may have completed a failover since the check above, in
+	// which case this report refers to a previous coordinator and must not be
+	// registered as a witness against the new one.
+	coordinator, epoch = group.GetCoordinator()
+	if req.Coordinator != coordinator || req.Epoch != epoch {
+		m.consumerGroupsMu.Unlock()
+		return status.New(
+			codes.FailedPrecondition,
+			fmt.Sprintf("Coordinator generation mismatch, current coordinator: %s epoch: %d, got coordinator: %s epoch: %d",
+				coordinator, epoch, req.Coordinator, req.Epoch))
+	}
 	failover := m.groupFailovers[group]
 	if failover == nil {
-		failover = newGroupFailoverStatus(
-			group,
-			m.config.Groups.CoordinatorTimeout,
-			m.newGroupFailoverExpiredHandler(group),
-			m.newGroupFailoverHandler(group),
-		)
+		failover = m.newGroupFailover(group, coordinator)
 		m.groupFailovers[group] = failover
 	}
 	m.consumerGroupsMu.Unlock()
@@ -917,18 +924,26 @@ func (m *metadataAPI) ReportGroupCoordinator(ctx context.Context, req *proto.Rep
 	return failover.report(ctx, req.ConsumerId)
 }
 
-func (m *metadataAPI) newGroupFailoverExpiredHandler(g *consumerGroup) failoverExpiredHandler {
-	return func() {
-		m.consumerGroupsMu.Lock()
-		delete(m.groupFailovers, g)
-		m.consumerGroupsMu.Unlock()
-	}
-}
-
-func (m *metadataAPI) newGroupFailoverHandler(g *consumerGroup) failoverHandler {
-	return func(ctx context.Context) *status.Status {
-		return m.electNewGroupCoordinator(ctx, g)
-	}
+// newGroupFailover creates the failover status for reports against the given
+// coordinator of the group. A failover triggered by it only replaces that very
+// coordinator, and when it expires it only removes itself.
+func (m *metadataAPI) newGroupFailover(g *consumerGroup, coordinator string) *failoverStatus {
+	var failover *failoverStatus
+	failover = newGroupFailoverStatus(
+		g,
+		m.config.Groups.CoordinatorTimeout,
+		func() {
+			m.consumerGroupsMu.Lock()
+			if m.groupFailovers[g] == failover {
+				delete(m.groupFailovers, g)
+			}
+			m.consumerGroupsMu.Unlock()
+		},
+		func(ctx context.Context) *status.Status {
+			return m.electNewGroupCoordinator(ctx, g, coordinator)
+		},
+	)
+	return failover
 }
 
 // createConsumerGroup creates a new consumer group bootstrapped with the
@@ -1693,14 +1708,31 @@ func (m *metadataAPI) electNewPartitionLeader(ctx context.Context, partition *pa
 // electNewGroupCoordinator selects a new coordinator for the given consumer
 // group and applies this update to the Raft group. This will fail if the
 // current broker is not the metadata leader.
-func (m *metadataAPI) electNewGroupCoordinator(ctx context.Context, group *consumerGroup) *status.Status {
+func (m *metadataAPI) electNewGroupCoordinator(ctx context.Context, group *consumerGroup,
+	failedCoordinator string) *status.Status {
+
+	// The failover is for a particular coordinator. If the coordinator has
+	// changed in the meantime, there is nothing to do. This is checked again
+	// as a precondition of the Raft operation below, i.e. atomically with
+	// respect to other coordinator changes.
+	checkCoordinator := func() error {
+		if coordinator, _ := group.GetCoordinator(); coordinator != failedCoordinator {
+			return fmt.Errorf("Coordinator generation mismatch, current coordinator: %s, got coordinator: %s",
+				coordinator, failedCoordinator)
+		}
+		return nil
+	}
+	if err := checkCoordinator(); err != nil {
+		return status.New(codes.FailedPrecondition, err.Error())
+	}
+
 	brokers, err := m.getClusterServerIDs()
 	if err != nil {
 		return status.New(codes.Internal, err.Error())
 	}
 	var (
-		candidates        = make([]string, 0, len(brokers)-1)
-		oldCoordinator, _ = group.GetCoordinator()
+		candidates     = make([]string, 0, len(brokers)-1)
+		oldCoordinator = failedCoordinator
 	)
 	for _, candidate := range brokers {
 		if candidate == oldCoordinator {
@@ -1725,7 +1757,12 @@ func (m *metadataAPI) electNewGroupCoordinator(ctx context.Context, group *consu
 	}
 
 	// Wait on result of replication.
-	future, err := m.getRaft().applyOperation(ctx, op, m.checkChangeGroupCoordinatorPreconditions)
+	future, err := m.getRaft().applyOperation(ctx, op, func(op *proto.RaftLog) error {
+		if err := m.checkChangeGroupCoordinatorPreconditions(op); err != nil {
+			return err
+		}
+		return checkCoordinator()
+	})
 	if err != nil {
 		return status.New(codes.FailedPrecondition, err.Error())
 	}
